@@ -430,17 +430,18 @@ static void gen_stmt(Plan* p, Rng* r, int tid, int depth, int* budget, int in_ha
   uint32_t d = rng_below(r, 100);
   (*budget)--;
   if (depth == 0 && d >= 30 && d < 48 && rng_chance(r, 3, 4)) d = 70;     /* few bare throws at top level */
-  if (d >= 24 && d < 30 && plan_env(p, "plainexc", 0) == 0) { plan_add(p, E_GARBAGE, tid, 0, rng_below(r, 8), rng_below(r, NKIND), 0, 0, 0, 0); return; }
+  if (d >= 24 && d < 30 && plan_env(p, "plainexc", 0) == 0) { int64_t g2 = rng_below(r, NKIND), g1 = rng_below(r, 8); plan_add(p, E_GARBAGE, tid, 0, g1, g2, 0, 0, 0, 0); return; }
   if (d < 30 || depth >= 5 || *budget < 3) { plan_add(p, E_NOP, tid, 0, 0, 0, 0, 0, 0, 0); return; }
   if (d < 48) {
     int fl = 0;
-    if (plan_env(p, "plainexc", 0) == 0) fl = (rng_chance(r, 1, 4) ? 1 : 0) | (rng_chance(r, 1, 6) ? 2 : 0) | (rng_chance(r, 1, 5) ? 4 : 0);
-    plan_add(p, rng_chance(r, 1, 4) ? E_LIBTHROW : E_THROW, tid, 0, rng_below(r, NKIND), fl, 0, 0, 0, 0); return; }
+    if (plan_env(p, "plainexc", 0) == 0) { int f1 = rng_chance(r, 1, 4) ? 1 : 0; int f2 = rng_chance(r, 1, 6) ? 2 : 0; int f4 = rng_chance(r, 1, 5) ? 4 : 0; fl = f1 | f2 | f4; }
+    int64_t tk = rng_below(r, NKIND); int tc = rng_chance(r, 1, 4) ? E_LIBTHROW : E_THROW;
+    plan_add(p, tc, tid, 0, tk, fl, 0, 0, 0, 0); return; }
   if (d < 58) { plan_add(p, E_CALL, tid, 0, 0, 0, 0, 0, 0, 0); gen_block(p, r, tid, depth + 1, budget, in_handler); plan_add(p, E_RET, tid, 0, 0, 0, 0, 0, 0, 0); return; }
   int mask = rng_chance(r, 1, 3) ? 0 : (int)(1 + rng_below(r, 63));
   if (rng_chance(r, 1, 3)) mask = 1 << rng_below(r, NKIND);
   if (plan_env(p, "plainexc", 0) == 0 && rng_chance(r, 1, 3)) mask |= (int)rng_below(r, 64) << 6;
-  plan_add(p, E_TRY, tid, 0, mask, rng_below(r, 4), rng_below(r, 2), 0, 0, 0);
+  { int64_t y3 = rng_below(r, 2), y2 = rng_below(r, 4); plan_add(p, E_TRY, tid, 0, mask, y2, y3, 0, 0, 0); }
   gen_block(p, r, tid, depth + 1, budget, in_handler);
   plan_add(p, E_CATCH, tid, 0, 0, 0, 0, 0, 0, 0);
   gen_block(p, r, tid, depth + 1, budget, 1);
